@@ -35,3 +35,4 @@ def run(prog, rep):
     from ..rules import r_io as _rio4
     _rio4.run_reclaim(prog, rep)
     _rio4.run_set_extent(prog, rep)
+    _rio4.run_replace_extent(prog, rep)
